@@ -177,7 +177,10 @@ def run_one(m, scale, jobs, tmp, seed):
             return name, prop, "BROKEN-MUTANT", r.stderr[-400:], time.time() - t0
         env = dict(os.environ, VERIF_REPO=root, VERIF_SCALE=str(scale), VERIF_JOBS=str(jobs), VERIF_SEED=str(seed), VERIF_NO_EVIDENCE="1",
                    VERIF_REPLAY_DIR=os.path.join(root, "replays"))
-        p = subprocess.run([os.path.join(VERIF, "check"), prop, "--tier", "quick"], capture_output=True, text=True, env=env, timeout=3600)
+        try:
+            p = subprocess.run([os.path.join(VERIF, "check"), prop, "--tier", "quick"], capture_output=True, text=True, env=env, timeout=4 * 3600)
+        except subprocess.TimeoutExpired:
+            return name, prop, "TIMEOUT", "the check did not finish within 4 h", time.time() - t0
         viol = [ln for ln in p.stdout.splitlines() if ln.startswith("VIOLATION")]
         detail = [ln for ln in p.stdout.splitlines() if ln.startswith("violation:")]
         if benign:
